@@ -40,7 +40,7 @@ def one(item):
         if tests:
             p = subprocess.run("go test -count=1 ./...",cwd=wt,shell=True,env=ENV,capture_output=True,text=True)
             t = "tests=" + ("pass" if p.returncode == 0 else "FAIL")
-        p = subprocess.run([os.environ.get("SPOKCHECK_BIN","/verif/bin/spokcheck"),"-property","all","-repo",wt,"-no-evidence"],capture_output=True,text=True)
+        p = subprocess.run([os.environ.get("SPOKCHECK_BIN",os.environ.get("SPOKCHECK_BIN","/verif/bin/spokcheck")),"-property","all","-repo",wt,"-no-evidence"],capture_output=True,text=True)
         lines = [l.strip()[:260] for l in p.stdout.splitlines() if re.match(r"\s+violated:|UNDECIDED|VACUOUS|ANCHOR-LOST|CHECKER-PANIC", l)]
         return name, ("silent" if not lines else "ALARM") + " " + t, lines
     finally:
